@@ -450,9 +450,15 @@ class Run:
         if self.sm is None and act == "define_same_name" and self.mod is None:
             # an unrelated same-named class defined (and used) BEFORE the main class is instantiated
             try:
-                self.mod, self.source = render.load(self.spec, rec)
-                self.preloaded = True
-                self._other_define(step)
+                if step.get("drop"):
+                    # defined, used, dropped and garbage collected before the main class is even compiled
+                    self.source = render.render(self.spec)
+                    self._other_define(step, standalone=True)
+                    self.source = None
+                else:
+                    self.mod, self.source = render.load(self.spec, rec)
+                    self.preloaded = True
+                    self._other_define(step)
                 rec.emit("note", what="other-definition", action=act, pre=True)
             except Exception as err:  # noqa: BLE001
                 rec.emit("note", what="other-definition", action=act, exc=f"{type(err).__name__}: {err}"[:200])
@@ -600,7 +606,7 @@ class Run:
         self._check_isolation(n0, "poke")
         return None
 
-    def _other_define(self, step):
+    def _other_define(self, step, standalone=False):
         """Definitions of OTHER classes while the main instance lives: an unrelated class with the same
         class and method names but other signatures / async bodies, a subclass adding transitions on
         inherited states, a definition that fails validation."""
@@ -620,6 +626,7 @@ class Run:
             # machine class only (drop provider classes), same names, other signatures / async flipped
             start = src.index(f"class M_{uid}(")
             body = src[start:]
+            head = src[:start] if standalone else ""
             variant = step.get("variant", 0)
             if variant == 0:
                 body = re.sub(r"def (\w+)\(self, \*args, \*\*kwargs\):", r"def \1(self, args=None, *, kwargs=None):", body)
@@ -637,8 +644,16 @@ class Run:
             mod.__dict__.update(ns)
             self.extra_mods = getattr(self, "extra_mods", []) + [modname]
             sys.modules[modname] = mod
+            if standalone:
+                from statemachine.mixins import MachineMixin
+                from .rec import Recorder as _R
+
+                scratch = _R()
+                scratch.scripts = {cid: cb["script"] for cid, cb in self.spec["cbs"].items()}
+                mod.__dict__.update({"REC": scratch, "MachineMixin": MachineMixin})
+                body = head + body
             exec(compile(body, f"<{modname}>", "exec"), mod.__dict__)
-            provs = render.provider_objects(self.spec, self.mod)
+            provs = render.provider_objects(self.spec, mod if standalone else self.mod)
             keep_log, self.rec.log = self.rec.log, []
             try:
                 other = getattr(mod, f"M_{uid}")(provs["model"], allow_event_without_transition=True,
@@ -649,6 +664,13 @@ class Run:
                         res.close()
             finally:
                 self.rec.log = keep_log
+            if step.get("drop"):
+                import gc
+
+                sys.modules.pop(modname, None)
+                self.extra_mods.remove(modname)
+                del other, provs, mod
+                gc.collect()
         elif act == "subclass":
             cls = type(self.sm)
             st = [s for s in self.spec["states"] if not s["final"]]
